@@ -153,9 +153,32 @@ def _sum_range(rng: ast.Call) -> ast.AST:
     return ast.BinOp(left=_sum_int_squares_to(end), op=ast.Sub(), right=_sum_int_squares_to(start))
 
 
+def _is_plain_arithmetic(*nodes: ast.AST) -> bool:
+    """The closed forms are computed by sympy, which reads Python code in its own way.
+
+    They are only right for sums, differences, products and integer powers of integer constants and
+    of names that mean nothing special to sympy.
+    """
+    for node in nodes:
+        for child in ast.walk(node):
+            if isinstance(child, (ast.BinOp, ast.UnaryOp)):
+                if not isinstance(child.op, (ast.Add, ast.Sub, ast.Mult, ast.Pow, ast.USub, ast.UAdd)):
+                    return False
+            elif isinstance(child, ast.Constant):
+                if type(child.value) is not int:
+                    return False
+            elif isinstance(child, ast.Name):
+                if hasattr(sympy, child.id) or child.id in constants.BUILTIN_FUNCTIONS:
+                    return False
+            elif not isinstance(child, (ast.operator, ast.unaryop, ast.expr_context)):
+                return False
+
+    return True
+
+
 @_simplify_math
 def _sum_constants(values: Sequence[ast.AST]) -> ast.AST:
-    expr = " + ".join(core.unparse(node).strip() for node in values)
+    expr = " + ".join(f"({core.unparse(node).strip()})" for node in values)
     return core.parse(expr)
 
 
@@ -246,7 +269,7 @@ def simplify_math_iterators(source: str) -> str:
                 for node in core.walk(arg, ast.Call)
             ):
                 continue
-            if not arg.elts:
+            if not arg.elts or not _is_plain_arithmetic(*arg.elts):
                 continue
             try:
                 replacement = _sum_constants(arg.elts)
@@ -263,10 +286,29 @@ def simplify_math_iterators(source: str) -> str:
                 for node in core.walk(arg, ast.Call)
             ):
                 continue
+            # Every generator has a name of its own, and no range depends on another generator
+            targets = [comprehension.target.id for comprehension in arg.generators]
+            if len(set(targets)) < len(targets) or any(
+                name.id in targets
+                for comprehension in arg.generators
+                for name in core.walk(comprehension.iter, ast.Name)
+            ):
+                continue
+            iterable_values = [
+                value
+                for comprehension in arg.generators
+                for value in (
+                    comprehension.iter.args
+                    if isinstance(comprehension.iter, ast.Call)
+                    else comprehension.iter.elts
+                )
+            ]
+            if not _is_plain_arithmetic(arg.elt, *iterable_values):
+                continue
             try:
                 replacement = _integrate_over(arg.elt, arg.generators)
-            except TypeError:
-                # E.g. range(1, n, 3): the number of steps is not known
+            except (TypeError, AttributeError, ValueError):
+                # E.g. range(1, n, 3): the number of steps is not known, or an empty iterable
                 continue
             yield node, replacement
 
